@@ -793,7 +793,42 @@ func (ck *checker) freshReplica() {
 	ck.rep.TracesValidated++
 	ck.rep.Case("fresh-replica|after-first-snapshot", true)
 	ck.monitors(env, "GET", "plain", "wf", r2, time.Time{}, true, rp)
-	ck.rep.Extra["fresh_replica"] = map[string]any{"before_snapshot": r1, "after_snapshot": r2}
+	// ... and a read that names a position the replica has not reached is not forwarded (the same proxy object
+	// that served the request before the database existed)
+	rq3 := rq
+	rq3.t = t + 5
+	rq3.cookie = lhttp.TXIDCookieName + "=" + formatTXID(rq3.t)
+	core.Beat("real:fresh replica read ahead")
+	r3 := w.send(rq3)
+	core.Beat("harness")
+	ck.rep.TracesValidated++
+	ck.rep.Case("fresh-replica|after-first-snapshot|cookie-ahead", true)
+	ck.monitors(env, "GET", "plain", "wf", r3, time.Time{}, true, rp)
+	// the primary side of the same story: a proxy that served a request before the tracked database existed
+	// issues the cookie once the application has created and written it
+	ck.lateDatabaseOnPrimary()
+	ck.rep.Extra["fresh_replica"] = map[string]any{"before_snapshot": r1, "after_snapshot": r2, "cookie_ahead": r3}
+}
+
+// lateDatabaseOnPrimary: the proxy of the primary tracks a database that does not exist yet; a first write request
+// goes through (nothing to report), then the application creates the database and writes: that write is
+// answered with the cookie.
+func (ck *checker) lateDatabaseOnPrimary() {
+	w := ck.w
+	ck.fresh++
+	name := fmt.Sprintf("late%d", ck.fresh)
+	n := w.primary()
+	cfg := proxyCfg{DB: name, Paths: "std"}
+	rp := map[string]any{"late_database": true}
+	r1 := w.send(request{node: n, cfg: cfg, method: "POST", path: "/app/other", write: 0})
+	r2 := w.send(request{node: n, cfg: cfg, method: "POST", path: "/app/items", write: 1})
+	r3 := w.send(request{node: n, cfg: cfg, method: "POST", path: "/app/items", write: 1})
+	ck.rep.TracesValidated++
+	ck.rep.Case("late-database-on-primary", true)
+	ck.monitors(n, "POST", "plain", "absent", r1, time.Time{}, true, rp)
+	ck.monitors(n, "POST", "plain", "absent", r2, time.Time{}, true, rp)
+	ck.monitors(n, "POST", "plain", "absent", r3, time.Time{}, true, rp)
+	ck.rep.Extra["late_database_on_primary"] = map[string]any{"first": r1, "creating_write": r2, "second_write": r3}
 }
 
 // ---------------------------------------------------------------- phase E: the primary has left for good
